@@ -109,11 +109,13 @@ func signature(c *tcase, class string) string {
 // run executes one case in world g and compares with the oracle. It returns
 // the first problem (or nil) and an observation key for the vacuity guard.
 func (g *genv) run(c *tcase) (*problem, string) {
-	if g.kind == "proxycache" {
-		// proxycache.Fetch never closes the ReadCloser it got from its origin
-		// (an *os.File with a localdisk origin); only the finalizer does. Run
-		// the collector now and then so that a long exploration does not hit
-		// the descriptor limit. (By-catch, outside C02; see NOTES.md.)
+	if g.fdLeaky {
+		// By-catch, outside C02 (see NOTES.md): files.ReceiveBlob (localdisk)
+		// never closes its temp file when the upload fails, and
+		// proxycache.Fetch never closes the ReadCloser of its origin; only
+		// finalizers release those descriptors. Most uploads here are
+		// rejected ones, so run the collector now and then, or a long
+		// exploration hits the descriptor limit.
 		if g.nrun++; g.nrun%128 == 0 {
 			runtime.GC()
 		}
